@@ -225,3 +225,23 @@ CHECKS.update({
                      "must not contain never-inserted or already-deleted elements, and every element is finalized and freed exactly once; distinct = schedule hash / history hash; non-trivial = a traversal overlaps an insert or delete; plus the real registry: private-collector programs with participants registering and leaving back-to-back while others advance, where an overlooked pinned participant shows as global - announced > 1",
                 accept=["C18"], assumptions=EBR_ASSUME[1:], floor=dict(quick=50, thorough=500)),
 })
+
+
+# ---- Miri (thorough tier only): UB / data-race interpreter on small programs -------------------
+def miri_job(name, args, secs=240, shards=16, stage=5):
+    return dict(name=name, variant="miri", stage=stage, tiers=["thorough"], args=args, miriflags="-Zmiri-seed={shard} -Zmiri-preemption-rate=0.03",
+                shards=dict(thorough=shards), secs=dict(thorough=secs), watchdog_factor=4)
+
+
+for _p in ("C01", "C02", "C03"):
+    CHECKS[_p]["jobs"] += [
+        miri_job("tiny-S-miri", ["rc", "--profile", "tiny", "--mode", "S", "--prop", _p, "--relevant", "any_destruct"], shards=8),
+        miri_job("tiny-P-miri", ["rc", "--profile", "tiny", "--mode", "P", "--prop", _p, "--relevant", "any_destruct"], shards=8),
+    ]
+for _p in ("C13", "C15"):
+    CHECKS[_p]["jobs"] += [
+        miri_job("ebr-tiny-P-miri", ["ebr", "--profile", "tiny", "--mode", "P", "--prop", _p], shards=10),
+        miri_job("ebr-tiny-S-miri", ["ebr", "--profile", "tiny", "--mode", "S", "--prop", _p], shards=6),
+    ]
+CHECKS["C17"]["jobs"].append(miri_job("c17-P-miri", ["ql", "--which", "c17", "--mode", "P"]))
+CHECKS["C18"]["jobs"].append(miri_job("c18-P-miri", ["ql", "--which", "c18", "--mode", "P"]))
